@@ -344,7 +344,141 @@ def stage_glr(work, tier, seed):
                         for v in verdicts[:60:12]]}
 
 
-STAGES = {"tables": stage_tables, "lr": stage_lr, "mci_lr": stage_mci_lr, "glr": stage_glr}
+
+def gadget_grammars(seed, n):
+    """Grammars built to put given candidate sets into one cell: binary operators,
+    dangling else, empty-vs-shift, reduce/reduce, three-way; with seeded meta-data."""
+    rng = random.Random(seed * 31 + 5)
+    out = []
+    assoc = ["", "left", "right"]
+    prios = ["", "5", "20"]
+
+    def m(*parts):
+        return ", ".join(x for x in parts if x)
+    for i in range(n):
+        k = i % 6
+        a1, a2, p1, p2 = rng.choice(assoc), rng.choice(assoc), rng.choice(prios), rng.choice(prios)
+        ta = rng.choice([None, None, "left", "right"])
+        nops = rng.choice(["", "", "nops"])
+        nopse = rng.choice(["", "", "nopse"])
+        if k == 0:
+            g = G.G("E: E Tp E {%s} | E Tm E {%s} | Tn" % (m(a1, p1), m(a2, p2)), tmeta={"p": (None, ta)})
+        elif k == 1:
+            g = G.G("S: Ti S {%s} | Ti S Te S {%s} | Tx" % (m(a1, p1, nops), m(a2, p2)), tmeta={"e": (None, ta)})
+        elif k == 2:
+            g = G.G("S: A Ta {%s}; A: Ta {%s} | {%s}" % (m(p2), m(a1, p1), m(nopse, p1 if rng.random() < .5 else "")),
+                    tmeta={"a": (None, ta)})
+        elif k == 3:
+            g = G.G("S: A Ta | B Ta; A: Tb {%s}; B: Tb {%s}" % (m(p1, a1), m(p2, a2)))
+        elif k == 4:
+            g = G.G("S: A Tt | B Tt | C; A: Ta {%s}; B: Ta {%s}; C: Ta Tt {%s}" % (m(p1, a1), m(p2, a2), m(rng.choice(prios))),
+                    tmeta={"t": (None, ta)})
+        else:
+            g = G.G("S: A Tc | B Tc | Tb Tc Td {%s}; A: Tb {%s} | {%s}; B: Tb {%s} | " % (
+                m(rng.choice(prios)), m(p1, a1), m(nopse), m(p2, a2)))
+        out.append(("gad:%d:%d" % (seed, i), g, {"meta", "gadget"}))
+    return out
+
+
+def stage_resolve(work, tier, seed):
+    """C05 part (a): per (grammar, settings) a raw dump and the resolved dump; TLC
+    judges every cell with ResolveDoc.CellHolds.  Compiler aborts are data."""
+    ngad = 120 if tier == "quick" else 1500
+    gs = [(gid, g, tags) for gid, g, tags in corpus(tier, seed) if "meta" in tags or "curated" in tags]
+    gs += gadget_grammars(seed, ngad)
+    cases = []
+    gtext = {}
+    combos = [("lr", "pager", False, True), ("lr", "lalr", True, True), ("lr", "pager", False, False),
+              ("lr", "lalr", True, False), ("glr", "rn", False, False), ("glr", "rn", True, True)]
+    for n, (gid, g, tags) in enumerate(gs):
+        text = G.render(g)
+        use = combos if ("gadget" in tags or "annotated" in tags or tier == "thorough") else \
+            [combos[n % 4], combos[4 + n % 2]]
+        for algo, tt, ps, pse in use:
+            cid = "%s|%s/%s/ps%d/pse%d" % (gid, algo, tt, ps, pse)
+            gtext[cid] = text
+            cases.append({"id": cid, "grammar": text,
+                          "cfg": {"algo": "glr", "tt": tt, "raw": True, "ps": False, "pse": False},
+                          "glr": {"algo": algo, "tt": tt, "ps": ps, "pse": pse,
+                                  "go": True if algo == "lr" else False},
+                          "meta": {"nodis": False, "plain": False}})
+    pres = run.run_vdrive(work, "resolve", cases)
+    rs = table_shards(work, "resolve", pres, "full", module="CheckResolve")
+    verdicts = [v for r in rs for v in r["verdicts"]]
+    errs = [e for pre in pres for e in run.read_ndjson(pre + ".errs.ndjson")]
+    for v in verdicts:
+        v["bad"] = v["bad"][:4]
+    return {"verdicts": verdicts, "gtext": gtext,
+            "errs": [dict(id=e["id"], cls=e["class"], msg=e["msg"][:300], cfg=e["cfg"]) for e in errs],
+            "states": sum(r["distinct"] for r in rs), "transitions": sum(r["states"] for r in rs),
+            "ncases": len(cases), "ndumps": len(verdicts),
+            "ncells_exercised": sum(v["exercised"] for v in verdicts),
+            "samples": [dict(id=v["id"], exercised_cells=v["exercised"], conflicts_left=v["nconf"])
+                        for v in verdicts if v["exercised"]][:3]}
+
+
+def op_grammars(tier, seed):
+    """Expression grammars with 2-3 binary operators and every assignment of
+    distinct priorities / associativities (same priority => same associativity)."""
+    import itertools
+    out = []
+    ops = ["p", "m", "q"]
+    for nops in (2, 3):
+        for prios in itertools.product([1, 2, 3], repeat=nops):
+            for assocs in itertools.product(["left", "right"], repeat=nops):
+                if any(prios[i] == prios[j] and assocs[i] != assocs[j]
+                       for i in range(nops) for j in range(nops)):
+                    continue
+                alts = " | ".join("E T%s E {%s, %d}" % (ops[i], assocs[i], prios[i]) for i in range(nops))
+                g = G.G("E: %s | Tn" % alts)
+                names = [t[0] for t in g["terms"]]
+                optab = [[names.index("T" + ops[i]) + 1, prios[i], assocs[i], i + 1] for i in range(nops)]
+                out.append(("op:%s:%s" % ("".join(map(str, prios)), "".join(a[0] for a in assocs)), g, optab))
+    if tier == "quick":
+        rng = random.Random(seed)
+        out = rng.sample(out, 40)
+    return out
+
+
+def stage_prec(work, tier, seed):
+    """C05 part (b): real LR parses of operator strings vs Prec.PrecTree."""
+    import itertools
+    cases = []
+    inputs = {}
+    gtext = {}
+    maxops = 3 if tier == "quick" else 4
+    for gid, g, optab in op_grammars(tier, seed):
+        text = G.render(g)
+        cid = gid + "|pager"
+        gtext[cid] = text
+        opnames = ["T" + x for x in "pmq"[:len(optab)]]
+        ins = []
+        iid = 0
+        for k in range(1, maxops + 1):
+            for combo in itertools.product(opnames, repeat=k):
+                toks = ["Tn"]
+                for o in combo:
+                    toks += [o, "Tn"]
+                iid += 1
+                text_in, lex = G.render_input(g, toks, None)
+                ins.append({"iid": iid, "text": text_in, "lex": lex, "partial": False, "meta": {"ops": optab}})
+                inputs["%s#%d" % (cid, iid)] = [text_in, lex]
+        cases.append({"id": cid, "grammar": text, "cfg": {"algo": "lr", "tt": "pager"},
+                      "meta": {"nodis": False, "plain": False}, "inputs": ins})
+    pres = run.run_vdrive(work, "prec", cases)
+    envs = [{"TRACES": p + ".traces.ndjson"} for p in pres if os.path.getsize(p + ".traces.ndjson") > 0]
+    rs = run.run_tlc_shards(work, "CheckPrec", "CheckPrec.cfg", envs)
+    verdicts = [v for r in rs for v in r["verdicts"]]
+    errs = [e for pre in pres for e in run.read_ndjson(pre + ".errs.ndjson")]
+    nconf = sum(1 for pre in pres for d in run.read_ndjson(pre + ".dumps.ndjson") if d["t"]["nconflicts"] > 0)
+    return {"verdicts": verdicts, "gtext": gtext, "inputs": inputs, "ngrammars_with_conflicts": nconf,
+            "errs": [dict(id=e["id"], cls=e["class"], msg=e["msg"][:300], cfg=e["cfg"]) for e in errs],
+            "states": sum(r["distinct"] for r in rs), "transitions": sum(r["states"] for r in rs),
+            "ncases": len(cases), "ntraces": len(verdicts),
+            "samples": [dict(id=v["id"], input=inputs["%s#%d" % (v["id"], v["iid"])][0]) for v in verdicts[:50:17]]}
+
+
+STAGES = {"resolve": stage_resolve, "prec": stage_prec, "tables": stage_tables, "lr": stage_lr, "mci_lr": stage_mci_lr, "glr": stage_glr}
 
 
 # ---------------------------------------------------------------------------
@@ -386,7 +520,8 @@ def coverage(prop, res, stage_names):
         cov["traces_validated_against_impl"] += r.get("ntraces", 0) + r.get("ndumps", 0)
         cov["samples"] += r.get("samples", [])[:3]
         cov["per_stage"][st] = {k: r[k] for k in ("ncases", "ndumps", "ntraces", "nok", "nsent", "nevents",
-                                                   "ntables", "maxlen", "wall", "nambiguous", "ninscope", "nlrglr") if k in r}
+                                                   "ntables", "maxlen", "wall", "nambiguous", "ninscope", "nlrglr",
+                                                   "ncells_exercised", "ngrammars_with_conflicts") if k in r}
         cov["per_stage"][st]["divergences"] = len(r.get("divergences", []))
     cov["states"] = max(cov["states"], 1)
     cov["transitions"] = max(cov["transitions"], 1)
